@@ -51,6 +51,14 @@ U_FhtRef == {N(("zz" :> t) @@ (key :> Alias("zz", t)), <<>>) : t \in RefTgts, ke
             \cup {N(("zz" :> t) @@ ("a" :> D1("b", Alias("zz", t))), <<>>) : t \in RefTgts}
             \cup {N(("zz" :> t) @@ ("a" :> Alias("zz", t)) @@ ("b" :> L1), <<>>) : t \in RefTgts}
 
+\* the DESTINATION holds a setting that is a reference to one of its own sub-configs (a: ${zz}); the source mentions the
+\* referring setting, the referred one, both, or neither.  The referring setting is merged with what the referred one
+\* holds BEFORE the merge (the settings are visited in the order of their names, and a, b sort before zz), and the
+\* referred setting is NOT written to through the reference.
+U_DstRefB == {N(("a" :> D1("y", S1)), <<>>), N(("a" :> D1("y", S1)) @@ ("zz" :> D1("z", Sx)), <<>>),
+              N(("zz" :> D1("z", S1)) @@ ("b" :> D1("y", Sx)), <<>>), N(("a" :> L1) @@ ("zz" :> L(<<Sx>>)), <<>>),
+              N(("b" :> S1), <<>>), N(("a" :> Nil) @@ ("zz" :> L(<<Sx, S1>>)), <<>>), N(("a" :> D1("b", D1("y", S1))), <<>>)}
+
 \* per-field paths THROUGH A LIST INDEX (the policy tree then holds nil placeholders in front of the index): lists whose
 \* elements are lists / dictionaries that contain the same indices and names again
 IdxVals  == {L(<<L(<<S1, Sx>>), L(<<S1>>)>>), L(<<D1("b", L1), D1("b", L(<<Sx, S1>>))>>), L(<<L(<<Sx>>), D1("b", L1)>>),
